@@ -96,6 +96,48 @@ func swarmKnobs(t *Tape) Knobs {
 		k.IDKey = t.Pick([]string{"rsa1", "ec_p256_0", "ec_p384_0", "ec_p521_0"})
 	}
 	k.DisableRTValidation = t.Chance(10)
+	// swarm over registrations and rarely used configuration: correctness must not depend on one population
+	for i := range k.Clients {
+		c := &k.Clients[i]
+		if t.Chance(20) {
+			c.GrantTypes = removeStr(c.GrantTypes, t.Pick([]string{"refresh_token", "implicit", "password", "client_credentials", "urn:ietf:params:oauth:grant-type:device_code", "authorization_code"}))
+		}
+		if t.Chance(15) {
+			c.ResponseTypes = [][]string{{"code"}, {"code", "code id_token"}, {"token", "id_token token", "id_token"}, {"code", "token", "code token", "code id_token token"}}[t.Intn(4)]
+		}
+		if t.Chance(15) {
+			c.Scopes = removeStr(c.Scopes, t.Pick([]string{"offline", "offline_access", "openid", "photos", "mail.read"}))
+		}
+		if t.Chance(10) {
+			c.Audience = removeStr(c.Audience, t.Pick(c.Audience))
+		}
+		if t.Chance(10) {
+			c.ResponseModes = [][]string{nil, {"query"}, {"fragment"}, {"form_post", "fragment"}}[t.Intn(4)]
+		}
+	}
+	if t.Chance(8) {
+		k.EnforcePKCEPublic = true
+	}
+	if t.Chance(5) {
+		k.PKCEPlain = true
+	}
+	if t.Chance(8) {
+		k.OmitScopeParam = true
+	}
+	if t.Chance(8) {
+		k.LegacyErrors = true
+	}
+	if t.Chance(8) {
+		k.MinParamEntropy = t.Range(4, 12)
+	}
+	if t.Chance(10) {
+		k.ScopeStrategy = t.Pick([]string{"exact", "hierarchic"})
+		if k.ScopeStrategy == "exact" {
+			for i := range k.Clients {
+				k.Clients[i].Scopes = append(k.Clients[i].Scopes, "users.read")
+			}
+		}
+	}
 	return k
 }
 
